@@ -7,6 +7,7 @@
 -/
 import AxVerif.Lemmas.BTree
 import AxVerif.Lemmas.Balance
+import AxVerif.Lemmas.Slotted
 namespace AxVerif.C10
 open AxVerif.BTree
 
@@ -377,5 +378,40 @@ theorem bestDistribution_loads_witness : ¬ bestDistribution_loads_statement := 
   intro h
   have := h 100 40 [10, 95, 50] [10, 95, 50] [2, 0, 1] (by decide) (by decide) (by decide) 105 (by decide)
   omega
+
+/-! ### slotted-page accounting (storage/core/buffer.rs) — checked on every page of every dump -/
+
+open AxVerif.Slotted in
+/-- What the per-page check establishes about a real page: cells inside [free space pointer, end of page), aligned,
+    pairwise disjoint, `free_space` exact, slot array below the cells. -/
+theorem slotted_check_sound (p : SPage) (h : wfB p = true) : Wf p := wfB_sound h
+
+open AxVerif.Slotted in
+/-- `remove`, `replace` by a cell that is not larger, and `insert` into a large enough gap keep the invariant. -/
+theorem slotted_ops_preserve (hdr : Nat) (p q : SPage) (hw : Wf p) :
+    (∀ idx, removeSlot p idx = some q → Wf q) ∧
+    (∀ idx n, replaceShrink Defects.none p idx n = some q → Wf q) ∧
+    (∀ idx size, insertAt hdr p idx size = some q → Wf q) :=
+  ⟨fun _ h => removeSlot_wf hw h, fun _ _ h => replaceShrink_wf hw h, fun _ _ h => insertAt_wf hw h⟩
+
+open AxVerif.Slotted in
+/-- The shipped `replace` (KF-C10-replace-moves-free-pointer, fixed by 4725b87): shrinking the first cell of a page in
+    place and then inserting a cell makes two cells overlap. -/
+theorem replaceMovesFsp_witness :
+    ∃ p q r : SPage, wfB p = true ∧ replaceShrink { replaceMovesFsp := true } p 0 16 = some q ∧
+      insertAt 80 q 2 32 = some r ∧ wfB r = false ∧ disjointB r.slots = false :=
+  ⟨{ cap := 4016, slots := [(3984, 32), (3952, 32)], fsp := 3952, free := 3948 },
+   { cap := 4016, slots := [(3984, 16), (3952, 32)], fsp := 3968, free := 3964 },
+   { cap := 4016, slots := [(3984, 16), (3952, 32), (3936, 32)], fsp := 3936, free := 3930 },
+   by decide, by decide, by decide, by decide, by decide⟩
+
+open AxVerif.Slotted in
+/-- … and without the defect the same two steps keep the page well formed. -/
+example : ∃ q r : SPage,
+    replaceShrink Defects.none { cap := 4016, slots := [(3984, 32), (3952, 32)], fsp := 3952, free := 3948 } 0 16 = some q ∧
+      insertAt 80 q 2 32 = some r ∧ wfB r = true :=
+  ⟨{ cap := 4016, slots := [(3984, 16), (3952, 32)], fsp := 3952, free := 3964 },
+   { cap := 4016, slots := [(3984, 16), (3952, 32), (3920, 32)], fsp := 3920, free := 3930 },
+   by decide, by decide, by decide⟩
 
 end AxVerif.C10
